@@ -16,6 +16,7 @@
 """Click code for annotate subcommand."""
 
 import datetime
+import errno
 import logging
 import re
 import sys
@@ -531,6 +532,11 @@ def annotate(
                     result += 1
                     continue
                 created_license_file = not path.exists()
+                if not created_license_file and not path.is_file():
+                    # A directory, a named pipe, ...
+                    raise IsADirectoryError(
+                        errno.EISDIR, _("not a regular file"), str(path)
+                    )
                 path.touch()
             except OSError as error:
                 click.echo(
